@@ -23,7 +23,7 @@ import Pog.Model.GenCode
   outcome = {"k": "moduleError"} | {"k": "nameError"} | {"k": "returned", "ret": ret}
           | {"k": "raised", "cls": "HTTPError"|"ClientError"|"ServerError"|"alias", "code": nat|null, "name": str,
              "isClient": bool, "isServer": bool, "status": nat, "response": bool, "why": str}
-  ret     = {"k": "none"|"text"|"content"|"streamBytes"|"streamSse"} | {"k": "structure"|"cast", "ty": ty}
+  ret     = {"k": "none"|"text"|"content"|"streamBytes"|"streamNdjson"|"streamSse"} | {"k": "structure"|"cast", "ty": ty}
   ty      = {"k": "bytes"|"str"|"int"|"any"} | {"k": "model"|"listModel", "n": str}
 
   A status key that is all digits but not the canonical decimal (`0200`) is outside the model's domain
@@ -152,6 +152,7 @@ private def jRet : RetKind → Json
   | .text => Json.mkObj [("k", Json.str "text")]
   | .content => Json.mkObj [("k", Json.str "content")]
   | .streamBytes => Json.mkObj [("k", Json.str "streamBytes")]
+  | .streamNdjson => Json.mkObj [("k", Json.str "streamNdjson")]
   | .streamSse => Json.mkObj [("k", Json.str "streamSse")]
 
 private def jWhy : RaiseWhy → String
@@ -192,6 +193,7 @@ private def jStrategy : Strategy → Json
   | .single t => Json.mkObj [("single", jTy t)]
   | .union m => Json.mkObj [("union", jlist (fun e => Json.arr #[jstr e.1, jTy e.2]) m)]
   | .streamBytes => Json.str "streamBytes"
+  | .streamNdjson => Json.str "streamNdjson"
   | .streamSse => Json.str "streamSse"
 
 private def jSeg : Seg → Json
